@@ -303,6 +303,30 @@ Definition Done (c d : Z) (qs : list queue) (gs : list ghost) (h : Z) : Prop :=
   forall q gh, nth_error qs (Z.to_nat h) = Some q -> nth_error gs (Z.to_nat h) = Some gh ->
     hlen (fst gh) = c + d + 1 /\ q_last_user q = c.
 
+(* how a queue and its history may change while the local inputs are registered: not at all, or -
+   for a queue that is not predicting and already reaches the current frame - by appended inputs *)
+Definition grows (c : Z) (q : queue) (hist : list Z) (q' : queue) (hist' : list Z) : Prop :=
+  q_first_incorrect q' = q_first_incorrect q /\ q_pred q' = q_pred q /\
+  (hist' = hist \/ (c <= hlen hist /\ pi_frame (q_pred q) = NULL /\ q_first_incorrect q = NULL /\
+                    exists ext, hist' = hist ++ ext)).
+Definition grows_all (c : Z) (qs : list queue) (gs : list ghost) (qs' : list queue) (gs' : list ghost) : Prop :=
+  forall h q' gh', nth_error qs' h = Some q' -> nth_error gs' h = Some gh' ->
+    exists q gh, nth_error qs h = Some q /\ nth_error gs h = Some gh /\ grows c q (fst gh) q' (fst gh').
+Lemma grows_all_refl : forall c qs gs, grows_all c qs gs qs gs.
+Proof. intros c qs gs h q gh A B. exists q, gh. split; [exact A|]. split; [exact B|]. split; [reflexivity|]. split; [reflexivity|left; reflexivity]. Qed.
+Lemma grows_all_trans : forall c a ga b gb e ge, grows_all c a ga b gb -> grows_all c b gb e ge -> grows_all c a ga e ge.
+Proof.
+  intros c a ga b gb e ge H1 H2 h q' gh' A B.
+  destruct (H2 h q' gh' A B) as (q1 & gh1 & A1 & B1 & (F1 & P1 & G1)).
+  destruct (H1 h q1 gh1 A1 B1) as (q0 & gh0 & A0 & B0 & (F0 & P0 & G0)).
+  exists q0, gh0. split; [exact A0|]. split; [exact B0|]. split; [congruence|]. split; [congruence|].
+  destruct G0 as [G0|(X1 & X2 & X3 & ext0 & X4)].
+  - rewrite <- G0. destruct G1 as [G1|(Y1 & Y2 & Y3 & Y4)]; [left; exact G1|right]. rewrite <- P0, <- F0. repeat split; assumption.
+  - right. split; [exact X1|]. split; [exact X2|]. split; [exact X3|].
+    destruct G1 as [G1|(_ & _ & _ & ext1 & Y4)]; [exists ext0; congruence|].
+    exists (ext0 ++ ext1). rewrite Y4, X4, app_assoc. reflexivity.
+Qed.
+
 (* the part of an iteration after the sync layer accepted the input for frame c + d *)
 Lemma register_tail : forall w d p gs h v r q q' hist hist' low,
   QS w d p gs -> all_clean (s_queues (ps_sync p)) ->
@@ -312,6 +336,7 @@ Lemma register_tail : forall w d p gs h v r q q' hist hist' low,
   RInv q' hist' low -> q_delay q' = q_delay q -> q_last_user q' = s_current (ps_sync p) ->
   q_last_requested q' = q_last_requested q -> q_first_incorrect q' = q_first_incorrect q -> q_pred q' = q_pred q ->
   hlen hist' = s_current (ps_sync p) + d + 1 -> hlen hist <= hlen hist' ->
+  s_current (ps_sync p) <= hlen hist -> (exists ext, hist' = hist ++ ext) ->
   let p1 := with_sync p (with_queues (ps_sync p) (updz (s_queues (ps_sync p)) (Z.to_nat h) q')) in
   let actual := s_current (ps_sync p) + d in
   exists p' gs',
@@ -323,9 +348,10 @@ Lemma register_tail : forall w d p gs h v r q q' hist hist' low,
     s_current (ps_sync p') = s_current (ps_sync p) /\ s_last_confirmed (ps_sync p') = s_last_confirmed (ps_sync p) /\
     Done (s_current (ps_sync p)) d (s_queues (ps_sync p')) gs' h /\
     (forall h', h' <> h -> 0 <= h' -> Done (s_current (ps_sync p)) d (s_queues (ps_sync p)) gs h' ->
-                Done (s_current (ps_sync p)) d (s_queues (ps_sync p')) gs' h').
+                Done (s_current (ps_sync p)) d (s_queues (ps_sync p')) gs' h') /\
+    grows_all (s_current (ps_sync p)) (s_queues (ps_sync p)) gs (s_queues (ps_sync p')) gs'.
 Proof.
-  intros w d p gs h v r q q' hist hist' low HQS Hcl Hh Hk Eq Eg Hpn Hfq I' D' U' R' F' P' Hlen' Hle p1 actual.
+  intros w d p gs h v r q q' hist hist' low HQS Hcl Hh Hk Eq Eg Hpn Hfq I' D' U' R' F' P' Hlen' Hle Hreach Hext p1 actual.
   pose proof HQS as [Hw Hd Hmode Hn Hconn Hgos HQ Hlast Hfr Hkinds Hpe].
   set (c := s_current (ps_sync p)) in *. set (L := s_last_confirmed (ps_sync p)) in *.
   pose proof (QsI_length _ _ _ _ HQ) as Hlq.
@@ -387,7 +413,7 @@ Proof.
   split.
   { rewrite O4, HpA. subst pA p1. unfold p_rest. cbn. repeat split. }
   split; [rewrite Hs4; reflexivity|]. split; [rewrite Hs4; reflexivity|].
-  split.
+  split; [|split].
   - intros q0 gh0 B C. rewrite Hs4 in B. cbn [with_queues s_queues] in B. subst gs'.
     rewrite nth_error_updz_same in B by lia. rewrite nth_error_updz_same in C by lia.
     injection B as <-. injection C as <-. cbn [fst]. split; [exact Hlen'|exact U'].
@@ -395,6 +421,13 @@ Proof.
     assert (Z.to_nat h <> Z.to_nat h') by lia.
     rewrite nth_error_updz_other in B by assumption. rewrite nth_error_updz_other in C by assumption.
     exact (Hdone q0 gh0 B C).
+  - intros h0 q0 gh0 B C. rewrite Hs4 in B. cbn [with_queues s_queues] in B. subst gs'.
+    destruct (Nat.eq_dec (Z.to_nat h) h0) as [Eh|Eh].
+    + subst h0. rewrite nth_error_updz_same in B by lia. rewrite nth_error_updz_same in C by lia.
+      injection B as <-. injection C as <-. exists q, (hist, low). split; [exact Eq|]. split; [exact Eg|].
+      cbn [fst]. split; [exact F'|]. split; [exact P'|]. right. repeat split; assumption.
+    + rewrite nth_error_updz_other in B by exact Eh. rewrite nth_error_updz_other in C by exact Eh.
+      exists q0, gh0. split; [exact B|]. split; [exact C|]. split; [reflexivity|]. split; [reflexivity|left; reflexivity].
 Qed.
 
 (* one iteration of register_local_inputs for a local handle with a pending input *)
@@ -407,7 +440,8 @@ Lemma register_step : forall w d p gs h pi r,
     s_current (ps_sync p') = s_current (ps_sync p) /\ s_last_confirmed (ps_sync p') = s_last_confirmed (ps_sync p) /\
     Done (s_current (ps_sync p)) d (s_queues (ps_sync p')) gs' h /\
     (forall h', h' <> h -> 0 <= h' -> Done (s_current (ps_sync p)) d (s_queues (ps_sync p)) gs h' ->
-                Done (s_current (ps_sync p)) d (s_queues (ps_sync p')) gs' h').
+                Done (s_current (ps_sync p)) d (s_queues (ps_sync p')) gs' h') /\
+    grows_all (s_current (ps_sync p)) (s_queues (ps_sync p)) gs (s_queues (ps_sync p')) gs'.
 Proof.
   intros w d p gs h pi r HQS Hcl Hh Hk Hpend.
   pose proof HQS as [Hw Hd Hmode Hn Hconn Hgos HQ Hlast Hfr Hkinds Hpe].
@@ -441,7 +475,7 @@ Proof.
     destruct Hadd as (q' & Ea & I' & D' & U' & R' & F' & P'); [unfold hlen; cbn; lia|unfold hlen; cbn; lia|].
     rewrite Ea. cbn [res_bind]. rewrite Hdel.
     assert ((c + d =? NULL) = false) as -> by (unfold NULL; lia).
-    eapply register_tail; try eassumption; fold c; rewrite ?hlen_fill; unfold hlen in *; cbn [length] in *; lia.
+    eapply register_tail; try eassumption; fold c; rewrite ?hlen_fill; try (eexists; reflexivity); unfold hlen in *; cbn [length] in *; lia.
   - (* the queue is exactly up to date: the input goes to frame c + d *)
     assert (Hs : q_last_user q = NULL \/ c = q_last_user q + 1) by (right; lia).
     destruct (add_input_ok q hist low c (pi_val pi) I Hpn ltac:(lia) Hs Hc0) as [_ Hadd].
@@ -450,16 +484,17 @@ Proof.
     destruct Hadd as (q' & Ea & I' & D' & U' & R' & F' & P'); [lia|lia|].
     rewrite Ea. cbn [res_bind]. rewrite Hdel.
     assert ((c + d =? NULL) = false) as -> by (unfold NULL; lia).
-    eapply register_tail; try eassumption; fold c; rewrite ?hlen_fill; unfold hlen in *; lia.
+    eapply register_tail; try eassumption; fold c; rewrite ?hlen_fill; try (eexists; reflexivity); unfold hlen in *; lia.
   - (* the input for this frame was registered by an earlier call that stalled: dropped *)
     unfold add_input. rewrite Hlu.
     assert ((negb (c =? NULL) && negb (c =? c + 1)) = true) as -> by (unfold NULL; lia).
     cbn [res_bind]. rewrite Z.eqb_refl.
     rewrite (updz_same _ _ _ Eq), with_queues_self, with_sync_self.
     exists p, gs. split; [reflexivity|]. split; [exact HQS|]. split; [exact Hcl|]. split; [apply p_rest_refl|].
-    split; [reflexivity|]. split; [reflexivity|]. split.
+    split; [reflexivity|]. split; [reflexivity|]. split; [|split].
     + intros q0 gh0 B C. rewrite Eq in B. rewrite Eg in C. injection B as <-. injection C as <-. cbn [fst]. split; assumption.
     + intros h' _ _ Hdone. exact Hdone.
+    + apply grows_all_refl.
 Qed.
 
 Lemma register_go_progress : forall hs w d p gs,
@@ -469,21 +504,23 @@ Lemma register_go_progress : forall hs w d p gs,
   exists p' gs', register_go p hs = Ok p' /\ QS w d p' gs' /\ all_clean (s_queues (ps_sync p')) /\ p_rest p p' /\
     s_current (ps_sync p') = s_current (ps_sync p) /\ s_last_confirmed (ps_sync p') = s_last_confirmed (ps_sync p) /\
     (forall h, 0 <= h -> In h hs \/ Done (s_current (ps_sync p)) d (s_queues (ps_sync p)) gs h ->
-               Done (s_current (ps_sync p)) d (s_queues (ps_sync p')) gs' h).
+               Done (s_current (ps_sync p)) d (s_queues (ps_sync p')) gs' h) /\
+    grows_all (s_current (ps_sync p)) (s_queues (ps_sync p)) gs (s_queues (ps_sync p')) gs'.
 Proof.
   induction hs as [|h r IH]; intros w d p gs HQS Hcl Hall.
   - exists p, gs. cbn [register_go]. split; [reflexivity|]. split; [exact HQS|]. split; [exact Hcl|].
-    split; [apply p_rest_refl|]. split; [reflexivity|]. split; [reflexivity|].
+    split; [apply p_rest_refl|]. split; [reflexivity|]. split; [reflexivity|]. split; [|apply grows_all_refl].
     intros h _ [[]|H]. exact H.
   - inversion Hall as [|? ? (Hh & Hk & pi & Hpe) Hall']; subst.
-    destruct (register_step w d p gs h pi r HQS Hcl Hh Hk Hpe) as (p1 & gs1 & E1 & HQ1 & Hcl1 & Hr1 & Hc1 & HL1 & Hd1 & Ht1).
+    destruct (register_step w d p gs h pi r HQS Hcl Hh Hk Hpe) as (p1 & gs1 & E1 & HQ1 & Hcl1 & Hr1 & Hc1 & HL1 & Hd1 & Ht1 & Hg1).
     rewrite E1.
     assert (Hall1 : Forall (fun h => 0 <= h /\ nth_error (ps_kinds p1) (Z.to_nat h) = Some KLocal /\
                                      exists pi, assoc_get (ps_pending p1) h = Some pi) r).
     { destruct Hr1 as (_ & _ & _ & _ & _ & Hk1 & _ & _ & _ & Hp1). rewrite Hk1, Hp1. exact Hall'. }
-    destruct (IH w d p1 gs1 HQ1 Hcl1 Hall1) as (p' & gs' & E & HQ' & Hcl' & Hr' & Hc' & HL' & Hd').
+    destruct (IH w d p1 gs1 HQ1 Hcl1 Hall1) as (p' & gs' & E & HQ' & Hcl' & Hr' & Hc' & HL' & Hd' & Hg').
     exists p', gs'. split; [exact E|]. split; [exact HQ'|]. split; [exact Hcl'|].
     split; [eapply p_rest_trans; eassumption|]. split; [congruence|]. split; [congruence|].
+    split; [|rewrite Hc1 in Hg'; eapply grows_all_trans; eassumption].
     intros h0 Hh0 Hin. rewrite Hc1 in Hd'.
     destruct (Z.eq_dec h0 h) as [->|Hne].
     + apply Hd'; [exact Hh0|]. right. exact Hd1.
@@ -621,7 +658,9 @@ Lemma rollback_confirm_progress : forall p gs g w d o,
     handle_rollback_and_save predict p cf o = Ok (p1, o1) /\ p1 = with_sync p (ps_sync p1) /\
     set_last_confirmed_frame (ps_sync p1) cf false = Ok s3 /\
     QS w d (with_sync p s3) gs3 /\ all_clean (s_queues s3) /\ map fst gs3 = map fst gs /\
-    s_current s3 = s_current (ps_sync p).
+    s_current s3 = s_current (ps_sync p) /\
+    Forall2 (fun q q' => q_pred q' = q_pred q /\ q_first_incorrect q' = q_first_incorrect q) (s_queues (ps_sync p1)) (s_queues s3) /\
+    s_current (ps_sync p1) = s_current (ps_sync p).
 Proof.
   intros p gs g w d o HQS HJI Hbnd.
   pose proof HQS as [Hw Hd Hmode Hn Hconn Hgos HQ Hlast Hfr Hkinds Hpe].
@@ -652,7 +691,10 @@ Proof.
   destruct Hsf3 as ((Hmp3 & _) & Hc3). rewrite Hc1 in Hc3.
   exists cf, p1, o1, s3, gs3.
   split; [exact Ecf|]. split; [exact Er|]. split; [exact Hshape|]. split; [exact E3|].
-  split; [|split; [exact Hcl3|split; [exact Hmap3|exact Hc3]]].
+  split; [|split; [exact Hcl3|split; [exact Hmap3|split; [exact Hc3|split; [|exact Hc1]]]]].
+  2:{ clear - Hpr3 Hcl1 Hcl3. unfold all_clean in *. revert Hcl1 Hcl3.
+      induction Hpr3 as [|q q' l l' H1 H2 IH]; intros A B; [constructor|].
+      inversion A; inversion B; subst. constructor; [split; [exact H1|congruence]|apply IH; assumption]. }
   apply (QS_resync w d p gs s3 gs3 HQS).
   - rewrite Hmp3, Hmp1. symmetry. exact Hw3.
   - rewrite Hc3, HL3. exact HQ3.
@@ -685,7 +727,7 @@ Lemma advance_rollback_progress : forall p gs g w d o,
 Proof.
   intros p gs g w d o HQS HJI Hbnd Hpend.
   destruct (rollback_confirm_progress p gs g w d o HQS HJI Hbnd)
-    as (cf & p1 & o1 & s3 & gs3 & Ecf & Er & Hshape & E3 & HQS3 & Hcl3 & Hmap3 & Hc3).
+    as (cf & p1 & o1 & s3 & gs3 & Ecf & Er & Hshape & E3 & HQS3 & Hcl3 & Hmap3 & Hc3 & _ & _).
   unfold advance_rollback_frame. rewrite Ecf. cbn [res_bind]. rewrite Er. cbn [res_bind].
   assert (Hspec1 : ps_spectators p1 = []).
   { rewrite Hshape. cbn. destruct (qs_mode _ _ _ _ HQS) as (_ & _ & X & _). exact X. }
@@ -702,7 +744,7 @@ Proof.
   { apply Forall_forall. intros h Hin. pose proof Hin as Hin2. apply (local_handles_spec p3 h Hnp3) in Hin2.
     destruct Hin2 as (Hr & Hk). split; [lia|]. split; [exact Hk|]. apply Hpend. exact Hin. }
   destruct (register_go_progress (local_handles p3) w d p3 gs3 HQS3 Hcl3 Hall)
-    as (p4 & gs4 & E4 & HQS4 & Hcl4 & Hrest4 & Hc4 & HL4 & Hdone4).
+    as (p4 & gs4 & E4 & HQS4 & Hcl4 & Hrest4 & Hc4 & HL4 & Hdone4 & _).
   unfold register_local_inputs. rewrite E4. cbn [res_bind].
   destruct (send_ready_outgoing_ok p4 o1) as (p5 & o5 & E5 & O5). rewrite E5. cbn [res_bind].
   pose proof (QS_out_only _ _ _ _ _ HQS4 O5) as HQS5.
@@ -822,7 +864,12 @@ End ProgressC.
 Lemma remote_progress : forall w d p gs pl f v e,
   QS w d p gs -> 0 <= pl < ps_nplayers p -> nth_error (ps_kinds p) (Z.to_nat pl) = Some (KRemote e) ->
   f = q_last_added (qnth (ps_sync p) pl) + 1 -> q_length (qnth (ps_sync p) pl) < QLEN ->
-  exists p' gs', ev_input p pl f v = Ok p' /\ QS w d p' gs'.
+  exists p' gs', ev_input p pl f v = Ok p' /\ QS w d p' gs' /\
+    exists q hist low q', nth_error (s_queues (ps_sync p)) (Z.to_nat pl) = Some q /\
+      nth_error gs (Z.to_nat pl) = Some (hist, low) /\ gs' = updz gs (Z.to_nat pl) (hist ++ [v], low) /\
+      s_queues (ps_sync p') = updz (s_queues (ps_sync p)) (Z.to_nat pl) q' /\
+      q_first_incorrect q' = fi_after q v (hlen hist) /\ q_pred q' = pred_after q v (hlen hist) /\
+      s_current (ps_sync p') = s_current (ps_sync p).
 Proof.
   intros w d p gs pl f v e HQS Hpl Hk Hf Hcap.
   pose proof HQS as [Hw Hd Hmode Hn Hconn Hgos HQ Hlast Hfr Hkinds Hpe].
@@ -856,6 +903,7 @@ Proof.
   rewrite Ea. cbn [res_bind].
   pose proof (qi_after_add _ _ _ _ _ v q' Hqi I' R' F' P') as Hqi'.
   eexists. exists (updz gs (Z.to_nat pl) (hist ++ [v], low)). split; [reflexivity|].
+  split; [|exists q, hist, low, q'; cbn [with_status with_sync with_queues ps_sync s_queues s_current]; repeat split; assumption].
   constructor; cbn [with_status with_sync with_queues ps_maxpred ps_sync ps_running ps_sparse ps_spectators ps_disc_frame
                     ps_nplayers ps_kinds ps_status ps_remotes ps_pending s_maxpred s_current s_last_confirmed s_queues].
   - exact Hw.
@@ -1022,7 +1070,7 @@ Proof.
     apply andb_prop in Hok. destruct Hok as [Hok H5]. apply andb_prop in Hok. destruct Hok as [Hok H4].
     apply andb_prop in Hok. destruct Hok as [Hok H3]. apply andb_prop in Hok. destruct Hok as [H1 H2].
     destruct (nth_error (ps_kinds p) (Z.to_nat pl)) as [[|e|e]|] eqn:Ek; try discriminate.
-    destruct (remote_progress w d p gs pl f v e HQS ltac:(lia) Ek ltac:(lia) ltac:(lia)) as (p' & gs' & E & HQ').
+    destruct (remote_progress w d p gs pl f v e HQS ltac:(lia) Ek ltac:(lia) ltac:(lia)) as (p' & gs' & E & HQ' & _).
     cbn [sstep]. rewrite E. cbn [res_bind].
     exists (mksr p' out0 AOk), gs', g. split; [reflexivity|]. cbn [sr_state sr_out out0 o_requests exec].
     split; [exact HQ'|]. split; [reflexivity|].
